@@ -328,6 +328,7 @@ func init() {
 			"(*storage/buffer.BufferPoolManager).NewPage":   "victim write-back",
 			"(*storage/buffer.BufferPoolManager).FlushPage": "explicit flush",
 			"samehada.reconstructIndexDataOfATbl":           "zeroes hash-index block pages at recovery time, before they are fetched (unlogged index pages)",
+			"(*recovery/log_recovery.LogRecovery).Redo":     "puts an empty page on the data file for a NewTablePage record whose page was never written before the crash (the page is not resident: FetchPage just failed); C01-R9 checks the shape",
 		}, 4)
 		wmc(w, r, "DiskManager.RemoveLogFile/RemoveDBFile", mergeSets(w.family(w.MethodObj("storage/disk", "DiskManager", "RemoveLogFile")), w.family(w.MethodObj("storage/disk", "DiskManager", "RemoveDBFile"))), map[string]string{
 			"(*samehada.SamehadaInstance).Shutdown":        "ShutdownPatternRemoveFiles (explicit request to drop the database)",
@@ -349,6 +350,7 @@ func init() {
 			"(*storage/buffer.BufferPoolManager).NewPage":   "victim write-back",
 			"(*storage/buffer.BufferPoolManager).FlushPage": "explicit flush",
 			"samehada.reconstructIndexDataOfATbl":           "zeroes hash-index block pages at recovery time, before they are fetched",
+			"(*recovery/log_recovery.LogRecovery).Redo":     "materialises a page that was allocated but never written before the crash (not resident); C01-R9 checks the shape",
 		}, 4)
 	})
 
